@@ -90,13 +90,13 @@ def setup(rec, tier):
 
 def cases(tier, seed):
     from verif.gen import rng_for, knot_case
-    N = {'quick': 300, 'thorough': 2000}[tier]
+    N = {'quick': 300, 'thorough': 10000}[tier]
     blk = 50
     for (a, b) in INTERVALS:
         for p in range(0, 7):
             for n0 in range(1, N + 1, blk):
                 yield {'kind': 'make_knots_block', 'p': p, 'a': a, 'b': b, 'n0': n0, 'n1': min(N, n0 + blk - 1)}
-    nr = {'quick': 300, 'thorough': 6000}[tier]
+    nr = {'quick': 300, 'thorough': 30000}[tier]
     for i in range(nr):
         rng = rng_for('C19iv', seed, i)
         mag = 10.0 ** rng.uniform(-6, 6)
@@ -104,7 +104,7 @@ def cases(tier, seed):
         b = float(a + 10.0 ** rng.uniform(-6, 6) * rng.uniform(0.1, 1))
         p = int(rng.integers(0, 7)); n = int(rng.integers(1, 400)); mult = int(rng.integers(1, max(p, 1) + 1))
         yield {'kind': 'make_knots_one', 'p': p, 'a': a, 'b': b, 'n': n, 'mult': mult}
-    nq = {'quick': 250, 'thorough': 5000}[tier]
+    nq = {'quick': 250, 'thorough': 25000}[tier]
     for i in range(nq):
         rng = rng_for('C19kv', seed, i)
         kc = knot_case(rng, pmin=0, pmax=6, max_spans=9, wild=(i % 2 == 0), a=float(rng.uniform(-3, 0)), b=float(rng.uniform(0.5, 4)))
